@@ -12,12 +12,16 @@ ops (one history = everything since the last `reset`):
   get <start> <n> <asc|desc>
   modify <idx> <name> <mtime> <title|nil> <owner|nil> <date|nil> <recommend> <multi|nil> <enable> <disable>
   dump
+  reset-brd <hex.BRD> | newboard <name13hex> <image256hex> | brd-dump              (ptt.NewBoard → addBoardRecord)
+  reset-bottom <hex|absent> | coldread <total|general> | loadbottom | bottom-dump  (.DIR.bottom behind the board cache)
 Mutating ops answer `<result> <state>` with state = `absent` or `<length>:<fnv1a-64 of the bytes>`.
 -/
 
 structure St where
   stride : Nat
   fs : FS
+  brd : FS := FS.absent                     -- BBSHOME/.BRD (callers layer)
+  bottom : Bottom := ⟨FS.absent, 0, true⟩   -- one board's .DIR.bottom and its cached count
 
 def fnv (bs : List Nat) : UInt64 :=
   bs.foldl (fun h b => (h ^^^ b.toUInt64) * 1099511628211) 14695981039346656037
@@ -139,6 +143,34 @@ def stepC05 (st : St) (ws : List String) : St × String :=
     | some n, some fs => if n ≤ 1048576 then ({ stride := n, fs }, "ok") else (st, "bad-op")
     | _, _ => (st, "bad-op")
   | ["dump"] => (st, if st.fs.present then toHex st.fs.bytes else "absent")
+  -- callers layer: ptt.NewBoard → addBoardRecord on .BRD
+  | ["reset-brd", h] =>
+    match parseHex h with
+    | some b => ({ st with brd := ⟨true, b⟩ }, "ok")
+    | none => (st, "bad-op")
+  | ["newboard", name, h] =>
+    match parseHex name, parseHex h with
+    | some nm, some img =>
+      if nm.length ≠ 13 ∨ img.take 13 ≠ nm ∨ img.length ≠ Gen.RecFile.packedBoardHeaderRaw then (st, "bad-op")
+      else
+        let (fs, out) := addBoardRecord st.brd img
+        ({ st with brd := fs }, s!"{showOut out} {showState fs}")
+    | _, _ => (st, "bad-op")
+  | ["brd-dump"] => (st, if st.brd.present then toHex st.brd.bytes else "absent")
+  -- callers layer: .DIR.bottom behind the board cache
+  | ["reset-bottom", h] =>
+    match (if h = "absent" then some FS.absent else (parseHex h).map (fun b => ⟨true, b⟩)) with
+    | some fs =>
+      let b := reloadBottom fs
+      ({ st with bottom := b }, s!"nbottom={b.nBottom}")
+    | none => (st, "bad-op")
+  | ["coldread", how] =>
+    if how = "total" ∨ how = "general" then
+      let b := coldRead st.bottom
+      ({ st with bottom := b }, s!"nbottom={b.nBottom} {showState b.file}")
+    else (st, "bad-op")
+  | ["loadbottom"] => (st, showOut (loadBottom st.bottom))
+  | ["bottom-dump"] => (st, if st.bottom.file.present then toHex st.bottom.file.bytes else "absent")
   | _ =>
     match parseOp st ws with
     | none => (st, "bad-op")
